@@ -292,9 +292,15 @@ def mon_c11(tr: Trace, every: int = 1) -> list[Violation]:
 
     out: list[Violation] = []
     calls = _runner_calls(tr)
-    if not calls or calls[0].kind != "rewind":
+    if not calls:
         return out
+    if tr.outcome[0] == "runaway":
+        every = max(every, 50)  # a self-feeding run cut by the harness after MAX_CALLS ticks: sample the comparison points
+    # the state the run was started from is the input of its first reducer call (normally the rewind); a runner that skips the
+    # rewind is compared all the same: rebuild_state_from_ticks rewinds on its own
     init = calls[0].before
+    if calls[0].kind != "rewind":
+        calls = [calls[0]] + calls
     ticks: list = []
     live._ACTIVE.append(live.Run({"steps": []}, __import__("random").Random(0)))  # swallow recordings of the replays
     try:
